@@ -180,7 +180,7 @@ Section Jet.
       else None
     end.
 
-  (* jetexpand_ode_via_jvp AS CODED NOW: vf_wrapped(*jet_coords, t) and
+  (* jetexpand_ode_via_jvp AS CODED NOW: vf_wrapped(jet_coords.., t) and
      _fwd_recursion_iterate hand t to jvp as one more primal with tangent
      ones_like(t), i.e.  F_{n+1} = <grad_x F_n, (x_1, .., x_{k-1}, f)> + dF_n/dt *)
   Definition pone : poly := [(1, [])].
